@@ -828,6 +828,13 @@ def cellValuesWithBoundaries(phi, BC) -> np.ndarray:
         All cell values (internal and boundary), including boundaries
     """
     
+    if (BC.left.periodic or BC.right.periodic) and \
+            isinstance(BC.domain, (CylindricalGrid1D, SphericalGrid1D,
+                                   CylindricalGrid2D, PolarGrid2D,
+                                   CylindricalGrid3D, SphericalGrid3D)):
+        # same refusal as in boundaryConditionsTerm, which is not reached
+        # when the matrix terms are not pre-calculated
+        raise ValueError("Radial periodic boundary conditions are not physically meaningful.")
     if issubclass(type(BC.domain), Grid1D):
         return cellValuesWithBoundaries1D(phi, BC)
     elif (type(BC.domain) is Grid2D) or (type(BC.domain) is CylindricalGrid2D):
